@@ -57,7 +57,7 @@ func c09Gen(gen string) *ref.G {
 func init() {
 	engine.Register(&engine.Check{
 		ID: "C09", Level: "exploration",
-		Rule: "every closed ring of 3 (and 4) free vertices on the 4x4 (3x3 quick for 4) integer grid as LinearRing, single-ring Polygon and single-polygon MultiPolygon; every polyline of 0..3 grid points; every sequence of 0..3 rings over a 6-ring menu (empty, ccw, cw, quad, 1-point, 2-point) as Polygon; every sequence of 0..3 polygons over an 8-polygon menu (incl. no-ring and empty-ring polygons) as MultiPolygon; every sequence of 0..3 lines over a 4-line menu as MultiLineString; plus large instances (rings and lines of 10/100/1000 lattice vertices, polygons of up to 200 rings, multipolygons of up to 260 polygons incl. empty ones) x layouts (extra ordinates are distractors) x exact scalings 2^k; plus the empty NoLayout geometry of every type; a slope lattice (segments and slivers whose ordinate differences have ratio 2^-j, j=0..60, and 10^-j, j=1..18, both axis orders, three lengths); every triangle and axis-parallel rectangle over {-(2^31-1),-1.5e9,-1,1,1.6e9,2^31-1}^2; mixed magnitudes (every closed quadrilateral on {-2,-1,1,2}^2 with one ordinate of the first or third vertex scaled by 2^40 or 2^80); Area/Length vs rational shoelace and 256-bit sqrt sums with a forward error bound; additivity against part accessors; totality (no panic). distinct_nontrivial = distinct geometries with at least one segment Also: one very long part per kind with 2^k-1, 2^k, 2^k+1 coordinates up to 2^15 (thorough 2^17), and every query / in-place change / query history of length <=3 (thorough 4) on live geometries (writes through FlatCoords, Coord(i) and part accessors, TransformInPlace, Reverse, SetCoords, Push). Round 7: every geometry with zero-length components also rebuilt by New*Flat from non-nil empty slices, and a clone of that (same Area/Length, no panic). Round 8: Area/Length bit-identical after SetSRID(4326), (3857), (0).",
+		Rule: "every closed ring of 3 (and 4) free vertices on the 4x4 (3x3 quick for 4) integer grid as LinearRing, single-ring Polygon and single-polygon MultiPolygon; every polyline of 0..3 grid points; every sequence of 0..3 rings over a 6-ring menu (empty, ccw, cw, quad, 1-point, 2-point) as Polygon; every sequence of 0..3 polygons over an 8-polygon menu (incl. no-ring and empty-ring polygons) as MultiPolygon; every sequence of 0..3 lines over a 4-line menu as MultiLineString; plus large instances (rings and lines of 10/100/1000 lattice vertices, polygons of up to 200 rings, multipolygons of up to 260 polygons incl. empty ones) x layouts (extra ordinates are distractors) x exact scalings 2^k; plus the empty NoLayout geometry of every type; a slope lattice (segments and slivers whose ordinate differences have ratio 2^-j, j=0..60, and 10^-j, j=1..18, both axis orders, three lengths); every triangle and axis-parallel rectangle over {-(2^31-1),-1.5e9,-1,1,1.6e9,2^31-1}^2; mixed magnitudes (every closed quadrilateral on {-2,-1,1,2}^2 with one ordinate of the first or third vertex scaled by 2^40 or 2^80); Area/Length vs rational shoelace and 256-bit sqrt sums with a forward error bound; additivity against part accessors; totality (no panic). distinct_nontrivial = distinct geometries with at least one segment Also: one very long part per kind with 2^k-1, 2^k, 2^k+1 coordinates up to 2^15 (thorough 2^17), and every query / in-place change / query history of length <=3 (thorough 4) on live geometries (writes through FlatCoords, Coord(i) and part accessors, TransformInPlace, Reverse, SetCoords, Push). Round 7: every geometry with zero-length components also rebuilt by New*Flat from non-nil empty slices, and a clone of that (same Area/Length, no panic). Round 8: Area/Length bit-identical after SetSRID(4326), (3857), (0). Round 11: segments whose dx lies hundreds of binades below dy (and the other way round), six geometry shapes.",
 		Run:  c09Run,
 		Replay: func(c *engine.Ctx, kind string, raw json.RawMessage) {
 			if kind == "c09-history" {
